@@ -139,3 +139,19 @@ Theorem c05_waits_grow : forall (a : assets) (k : nat) (s : session),
   history a k s -> s_status s = SWaiting -> (k + 1 <= count_waits s)%nat.
 Proof. exact history_waits. Qed.
 Print Assumptions c05_waits_grow.
+
+(* No Go error: for validated definitions ([valid_assets]: every exit's destination is a node of its flow,
+   every case / default / timeout category exists - what flow validation guarantees of a loadable
+   definition; the boolean form is checked on every generated asset store by the correspondence run) no
+   engine call of the model returns a Go error - in particular not when the step limit is hit. *)
+From Verif Require Import proofs.EngineNoErr.
+
+Theorem c05_start_no_go_error : forall (a : assets) (t : trigger) (flow : id) (y : st),
+  valid_assets a -> get_flow a flow <> None -> start a t flow <> RGoError y.
+Proof. exact start_no_go_error. Qed.
+Print Assumptions c05_start_no_go_error.
+
+Theorem c05_resume_no_go_error : forall (a : assets) (s : session) (r : resume) (tmo : text) (y : st),
+  valid_assets a -> reachable s -> resume_session a s r tmo <> Resumed (RGoError y).
+Proof. exact reachable_resume_no_go_error. Qed.
+Print Assumptions c05_resume_no_go_error.
